@@ -13,7 +13,7 @@ use std::io::{BufRead, BufWriter, Write};
 use std::sync::mpsc;
 use std::time::Duration;
 
-const WATCHDOG: Duration = Duration::from_secs(5);
+const WATCHDOG: Duration = Duration::from_secs(20);
 const STACK: usize = 256 << 20;
 
 fn spawn_worker() -> (mpsc::Sender<Value>, mpsc::Receiver<Value>) {
